@@ -144,6 +144,11 @@ def o3_no_unsaved_loss(steps, cfg, history, include_failed=False):
                 a = rec_addr(r, p)
                 o = post.cache.get(a)
                 ok = bool(o and o['bytes'] == b)
+            if not ok and include_failed and st['rc'] not in (0, 1):
+                # The process died (a panic after an I/O error) like a killed one: with several targets a sibling of the
+                # failing file may have been moved into the cache already while the records - saved at the end - still name
+                # the previous version (the state C07 knows as K3d).  The bytes are not destroyed when some object holds them.
+                ok = any(x['bytes'] == b for x in post.cache.values())
             if not ok:
                 strip_coll = bool(r and r['cur'] and post.cache.get(rec_addr(r, p)) and
                                   hashref.strip_crlf(post.cache[rec_addr(r, p)]['bytes'] or b'') == hashref.strip_crlf(b))
